@@ -75,6 +75,7 @@ func runRapid(cfg *Cfg) {
 	wktLines(out, cfg, 4*drawSeeds)
 	anyHintPass(out, cfg)
 	ownWktPass(out, cfg)
+	deepChainPass(out, cfg)
 	aliasEnumPass(out, cfg)
 	for _, t := range targets {
 		if est := expectedNodes(t.S, 0, 0, map[[2]int]float64{}); est <= 20000 {
@@ -312,10 +313,17 @@ func walkGenerated(out *Out, oname string, opts rapidproto.GeneratorOptions, m p
 		switch {
 		case fd.IsList():
 			l := m.Get(fd).List()
-			if opts.NoEmptyLists && l.Len() == 0 && depth < 9 && !(fd.Kind() == protoreflect.MessageKind && depth >= 8) {
-				// an empty list is only acceptable where the nesting limit truncated it
+			if opts.NoEmptyLists && l.Len() == 0 && depth <= 10 {
+				// what the draw-level model proves (C18_draws_noEmptyLists, `nelField`): in every message filled within the
+				// nesting limit (depth <= 10) a scalar list has an element; a MESSAGE list has one when nil messages are
+				// disallowed as well and its holder sits at depth < 10 (its elements, one level down, are still within
+				// the limit); without DisallowNilMessages the elements may all have been drawn as nil and truncated
 				if fd.Kind() != protoreflect.MessageKind {
-					out.Violate("C18", "empty-list", "NoEmptyLists: empty list in "+string(fd.FullName()), replay)
+					if depth < 9 {
+						out.Violate("C18", "empty-list", "NoEmptyLists: empty list in "+string(fd.FullName()), replay)
+					}
+				} else if opts.DisallowNilMessages && depth < 10 && !isWKT(m.Descriptor().FullName()) {
+					out.Violate("C18", "empty-message-list", fmt.Sprintf("NoEmptyLists + DisallowNilMessages: empty message list %s in a message at nesting level %d (its elements would be within the nesting limit)", fd.FullName(), depth), replay)
 				} else {
 					out.Count("empty_message_lists_under_noemptylists")
 				}
@@ -385,4 +393,9 @@ func expectedNodes(s *vschema.Schema, mi, d int, memo map[[2]int]float64) float6
 	}
 	memo[[2]int{mi, d}] = n
 	return n
+}
+
+
+func isWKT(n protoreflect.FullName) bool {
+	return strings.HasPrefix(string(n), "google.protobuf.")
 }
